@@ -42,6 +42,7 @@ This file is part of libECBUFR.
 #define TESTINDEX     0
 
 static int         bufr_is_dd_for_dpbm( BufrDescriptor *bcv );
+static ListNode   *bufr_find_start_dpi( BUFR_Sequence *bsq );
 static void        bufr_change_af_sig( BufrDDOp *ddo , char *sig );
 static void        bufr_reassign_table2code( BufrDescriptor *bc, int f, EntryTableB *tb );
 static void        bufr_assign_descriptors( ListNode *node, int nbdesc, int flags, BUFR_Tables * );
@@ -1381,7 +1382,7 @@ int bufr_apply_tables2node
          ddo->dpbm = bufr_index_dpbm( ddo, bsq );
       if (ddo->remain_dpi == 0)
          {
-         bufr_init_dpbm( ddo->dpbm, ddo->start_dpi );
+         bufr_init_dpbm( ddo->dpbm, bufr_find_start_dpi( bsq ) );
          ddo->remain_dpi = -1;
          }
       else if ((ddo->remain_dpi > 0)&&(ddo->remain_dpi < ddo->dpbm->nb_codes))
@@ -1389,7 +1390,7 @@ int bufr_apply_tables2node
          sprintf( errmsg, _("Warning: bitmap size %d != %d data present descriptors\n"),
             ddo->dpbm->nb_codes - ddo->remain_dpi, ddo->dpbm->nb_codes );
          bufr_print_debug( errmsg );
-         bufr_init_dpbm( ddo->dpbm, ddo->start_dpi );
+         bufr_init_dpbm( ddo->dpbm, bufr_find_start_dpi( bsq ) );
          ddo->remain_dpi = -1;
          ddo->flags &= ~DDO_BIT_MAP_FOLLOW;
          }
@@ -1986,7 +1987,10 @@ BufrDPBM *bufr_index_dpbm ( BufrDDOp *ddo, BUFR_Sequence *bsq )
 
       if (bufr_is_start_dpbm( bcv->descriptor )) 
          {
-         if (ddo) ddo->start_dpi = node;
+/*
+ * the node is not remembered: a delayed replication expanded later on may release it
+ * (see bufr_find_start_dpi)
+ */
          break;
          }
 
@@ -2016,6 +2020,32 @@ BufrDPBM *bufr_index_dpbm ( BufrDDOp *ddo, BUFR_Sequence *bsq )
       ddo->remain_dpi = dpbm->nb_codes;
       }
    return dpbm;
+   }
+
+/**
+ * @english
+ * the node that follows the first operator starting a data present bitmap section, looked up 
+ * in the sequence as it is now: a pointer kept from bufr_index_dpbm() would dangle once the 
+ * delayed replication holding that node has been expanded
+ * @endenglish
+ * @francais
+ * @todo translate to French
+ * @endfrancais
+ * @ingroup internal
+ */
+static ListNode *bufr_find_start_dpi( BUFR_Sequence *bsq )
+   {
+   ListNode         *node;
+   BufrDescriptor   *bcv;
+
+   node = lst_firstnode( bsq->list );
+   while ( node )
+      {
+      bcv = (BufrDescriptor *)node->data;
+      node = lst_nextnode( node );
+      if (bufr_is_start_dpbm( bcv->descriptor )) return node;
+      }
+   return NULL;
    }
 
 /**
